@@ -346,7 +346,7 @@ def join(a: Val, b: Val) -> Val:
                 if base not in x_.data and base in y_.data:
                     data = data | {o + "|path"}
     # may-alias facts survive a merge when either side carries them
-    for k_ in ("self_container", "tail_filled", "squared"):
+    for k_ in ("self_container", "tail_filled", "tail_filled_from_self", "squared"):
         if k_ not in tags and (a.tags.get(k_) or b.tags.get(k_)):
             tags[k_] = a.tags.get(k_) or b.tags.get(k_)
     # must-dependence: what reaches the value on EVERY joined path (valid right after the merge; plain operations drop the tag)
